@@ -12,7 +12,6 @@ import (
 	"encoding/json"
 	"fmt"
 	"strconv"
-	"strings"
 
 	"gopkg.in/typ.v4/arrays"
 	"verif/harness/core"
@@ -35,7 +34,8 @@ type Op struct {
 type Case struct {
 	W      int     `json:"w"`
 	H      int     `json:"h"`
-	Ctor   string  `json:"ctor"` // new | filled | jagged
+	Ctor   string  `json:"ctor"`        // zero (the zero value Array2D) | new | filled | jagged
+	T      string  `json:"t,omitempty"` // element type: "" = int, "elem" = a 24-byte struct (oracle only)
 	V      int     `json:"v,omitempty"`
 	Jagged [][]int `json:"jagged,omitempty"`
 	Ops    []Op    `json:"ops"`
@@ -73,6 +73,17 @@ func run(c *core.Ctx) {
 	fillS := c.N(6, 6, 10)
 	val := 1000
 	next := func() int { val++; return val }
+	// every case runs on Array2D[int] (oracle + model); every third one again on Array2D[elem],
+	// a struct element type (oracle only: the model check is on ints)
+	nth := 0
+	ex := func(cs Case) {
+		exec(c, cs)
+		if nth++; nth%3 == 0 {
+			cs.T = "elem"
+			exec(c, cs)
+		}
+	}
+	edgeStream(c, ex)
 	for w := 0; w <= maxS; w++ {
 		for h := 0; h <= maxS; h++ {
 			dj := distinctJagged(w, h)
@@ -85,7 +96,7 @@ func run(c *core.Ctx) {
 				}
 			}
 			ops = append(ops, Op{K: "dims"}, Op{K: "string"}, Op{K: "clone"})
-			exec(c, Case{W: w, H: h, Ctor: "jagged", Jagged: dj, Ops: ops})
+			ex(Case{W: w, H: h, Ctor: "jagged", Jagged: dj, Ops: ops})
 			// Set everywhere, one after the other, on a zero array
 			ops = nil
 			for y := -1; y <= h; y++ {
@@ -94,7 +105,7 @@ func run(c *core.Ctx) {
 				}
 			}
 			ops = append(ops, Op{K: "string"})
-			exec(c, Case{W: w, H: h, Ctor: "new", Ops: ops})
+			ex(Case{W: w, H: h, Ctor: "new", Ops: ops})
 			// Row: read, write every position through the window, Set a cell of that row while holding it
 			ops = nil
 			for y := -1; y <= h; y++ {
@@ -112,7 +123,7 @@ func run(c *core.Ctx) {
 				}
 				ops = append(ops, Op{K: "row", A: []int{y}, Ws: ws})
 			}
-			exec(c, Case{W: w, H: h, Ctor: "jagged", Jagged: dj, Ops: ops})
+			ex(Case{W: w, H: h, Ctor: "jagged", Jagged: dj, Ops: ops})
 			// RowSpan: every x1, x2 (also x1 > x2) for every y
 			for y := -1; y <= h; y++ {
 				ops = nil
@@ -126,7 +137,7 @@ func run(c *core.Ctx) {
 						ops = append(ops, Op{K: "rowspan", A: []int{x1, x2, y}, Ws: ws})
 					}
 				}
-				exec(c, Case{W: w, H: h, Ctor: "jagged", Jagged: dj, Ops: ops})
+				ex(Case{W: w, H: h, Ctor: "jagged", Jagged: dj, Ops: ops})
 			}
 			// Fill: every pair of corners
 			if w <= fillS && h <= fillS {
@@ -138,24 +149,24 @@ func run(c *core.Ctx) {
 								ops = append(ops, Op{K: "fill", A: []int{x1, y1, x2, y2, next()}})
 							}
 						}
-						exec(c, Case{W: w, H: h, Ctor: "jagged", Jagged: dj, Ops: ops})
+						ex(Case{W: w, H: h, Ctor: "jagged", Jagged: dj, Ops: ops})
 					}
 				}
 			}
 			// constructors: filled, and jagged inputs with fewer/more rows, shorter/longer rows
 			obsv := []Op{{K: "dims"}, {K: "string"}, {K: "clone"}}
-			exec(c, Case{W: w, H: h, Ctor: "new", Ops: obsv})
-			exec(c, Case{W: w, H: h, Ctor: "filled", V: 7, Ops: obsv})
+			ex(Case{W: w, H: h, Ctor: "new", Ops: obsv})
+			ex(Case{W: w, H: h, Ctor: "filled", V: 7, Ops: obsv})
 			for dh := -2; dh <= 2; dh++ {
 				for dw := -2; dw <= 2; dw++ {
 					if h+dh < 0 || w+dw < 0 {
 						continue
 					}
-					exec(c, Case{W: w, H: h, Ctor: "jagged", Jagged: distinctJagged(w+dw, h+dh), Ops: obsv})
+					ex(Case{W: w, H: h, Ctor: "jagged", Jagged: distinctJagged(w+dw, h+dh), Ops: obsv})
 				}
 			}
-			exec(c, Case{W: w, H: h, Ctor: "jagged", Jagged: nil, Ops: obsv})
-			exec(c, Case{W: w, H: h, Ctor: "jagged", Jagged: raggedJagged(w, h), Ops: obsv})
+			ex(Case{W: w, H: h, Ctor: "jagged", Jagged: nil, Ops: obsv})
+			ex(Case{W: w, H: h, Ctor: "jagged", Jagged: raggedJagged(w, h), Ops: obsv})
 		}
 	}
 	c.Exhaustive = true
@@ -164,7 +175,7 @@ func run(c *core.Ctx) {
 
 	// random shapes and call sequences
 	for i := c.N(250, 6000, 4000); i > 0; i-- {
-		exec(c, randomCase(c.Rng))
+		ex(randomCase(c.Rng))
 	}
 	bigStream(c)
 }
@@ -307,7 +318,7 @@ func bigStream(c *core.Ctx) {
 		}
 		shapes = append(shapes, [2]int{a, b})
 	}
-	sampled := 0
+	sampled, big := 0, 0
 	maxSampled := c.N(100, 400, 0)
 	for _, sh := range shapes {
 		for _, cs := range bigCases(r, sh[0], sh[1]) {
@@ -321,6 +332,10 @@ func bigStream(c *core.Ctx) {
 				sampled++
 			}
 			execE(c, cs, emit)
+			if big++; big%5 == 0 {
+				cs.T = "elem"
+				execE(c, cs, false)
+			}
 		}
 	}
 	c.Note(fmt.Sprintf("large/extreme shapes: %d shapes (1xN, Nx1, 2xN, Nx2, 3xN, Nx3 for N in 15..4097 dense around powers of two; 33x65, 64x64, 65x63, 129x3, ...; random up to ~10000 cells) "+
@@ -333,6 +348,30 @@ func min(a, b int) int {
 		return a
 	}
 	return b
+}
+
+// edgeStream: the zero-value Array2D, and shapes with a negative width or height. The latter
+// are outside the property (w, h >= 0); they are run so that the model's make-panic branch
+// (new2d, w*h < 0) and the check's constructor-panic arm are exercised against what Go does:
+// New2D(-1,5) panics in make; New2D(-2,-3) builds an array on which every call panics.
+func edgeStream(c *core.Ctx, ex func(Case)) {
+	probe := func(w, h int) []Op {
+		var ops []Op
+		for _, p := range [][2]int{{0, 0}, {-1, -1}, {1, 1}, {w, h}, {w - 1, h - 1}, {-1, 0}, {0, -1}} {
+			ops = append(ops, Op{K: "get", A: []int{p[0], p[1]}}, Op{K: "set", A: []int{p[0], p[1], 9}},
+				Op{K: "row", A: []int{p[1]}}, Op{K: "rowspan", A: []int{p[0], p[0], p[1]}},
+				Op{K: "fill", A: []int{p[0], p[1], p[0], p[1], 8}}, Op{K: "fill", A: []int{0, 0, p[0], p[1], 8}})
+		}
+		return append(ops, Op{K: "dims"}, Op{K: "string"}, Op{K: "clone"})
+	}
+	ex(Case{W: 0, H: 0, Ctor: "zero", Ops: probe(0, 0)})
+	ex(Case{W: 0, H: 0, Ctor: "zero", Ops: []Op{{K: "clone"}, {K: "string"}, {K: "dims"}}})
+	ex(Case{W: 0, H: 0, Ctor: "zero"})
+	for _, d := range [][2]int{{-1, 5}, {-2, -3}, {-1, 0}, {5, -1}, {0, -1}, {-1, -1}, {-3, 2}, {-4, -4}} {
+		ex(Case{W: d[0], H: d[1], Ctor: "new", Ops: probe(d[0], d[1])})
+		ex(Case{W: d[0], H: d[1], Ctor: "filled", V: 7, Ops: probe(d[0], d[1])})
+		ex(Case{W: d[0], H: d[1], Ctor: "jagged", Jagged: distinctJagged(abs(d[0])+1, abs(d[1])+1), Ops: probe(d[0], d[1])})
+	}
 }
 
 // raggedJagged: rows of every length 0..w+2 in turn, h+1 rows, some nil.
@@ -489,15 +528,15 @@ func eq2(a, b [][]int) bool {
 }
 
 // readGrid reads every cell with Get, row by row.
-func readGrid(c *core.Ctx, a arrays.Array2D[int], w, h int, when string) []int {
+func readGrid(c *core.Ctx, a grid, w, h int, when string) []int {
 	return readGridInto(c, a, w, h, when, nil)
 }
 
 // readGridInto is readGrid reusing buf's storage.
-func readGridInto(c *core.Ctx, a arrays.Array2D[int], w, h int, when string, buf []int) []int {
+func readGridInto(c *core.Ctx, a grid, w, h int, when string, buf []int) []int {
 	g := buf[:0]
-	if cap(g) < w*h {
-		g = make([]int, 0, w*h)
+	if cap(g) < max0(w)*max0(h) {
+		g = make([]int, 0, max0(w)*max0(h))
 	}
 	// fast path: one recover for the whole grid; per-cell recovery only if some Get panics
 	if k := core.Try(func() {
@@ -555,67 +594,222 @@ func diffRef(got []int, ref [][]int, w int) string {
 	return ""
 }
 
-// parseRows parses the output of String() for ints: "[[1 2] [3 4]]".
-func parseRows(s string) ([][]int, bool) {
-	if len(s) < 2 || s[0] != '[' || s[len(s)-1] != ']' {
+// parseRows reads the cell values out of String()'s text without fixing its format: any of
+// ( [ { open and ) ] } close a group, integers are the cells, everything else separates.
+// The rows are the innermost groups of a two-level nesting ("[[1 2] [3 4]]", "((1,2),(3,4))",
+// "[\n [1, 2]\n [3, 4]\n]"); with a single level of grouping or none, the lines are the rows
+// ("1 2\n3 4") or, for one group on one line, that group is one row. ok = false: not understood.
+func parseRows(s string) (rows [][]int, ok bool) {
+	depth, maxDepth := 0, 0
+	for _, ch := range s {
+		switch ch {
+		case '[', '(', '{':
+			depth++
+			if depth > maxDepth {
+				maxDepth = depth
+			}
+		case ']', ')', '}':
+			depth--
+			if depth < 0 {
+				return nil, false
+			}
+		}
+	}
+	if depth != 0 || maxDepth > 2 {
 		return nil, false
 	}
-	s = s[1 : len(s)-1]
-	rows := [][]int{}
-	for len(s) > 0 {
-		if s[0] == ' ' {
-			s = s[1:]
-			continue
+	rows = [][]int{}
+	var cur []int
+	open := false // inside a row
+	flush := func() {
+		if open {
+			if cur == nil {
+				cur = []int{}
+			}
+			rows = append(rows, cur)
+			cur, open = nil, false
 		}
-		if s[0] != '[' {
-			return nil, false
-		}
-		end := strings.IndexByte(s, ']')
-		if end < 0 {
-			return nil, false
-		}
-		row := []int{}
-		for _, f := range strings.Fields(s[1:end]) {
-			n, err := strconv.Atoi(f)
+	}
+	rowDepth := maxDepth // rows are the innermost groups; 0: lines
+	depth = 0
+	for i := 0; i < len(s); {
+		ch := s[i]
+		switch {
+		case ch == '[' || ch == '(' || ch == '{':
+			depth++
+			if rowDepth == 2 && depth == 2 {
+				open, cur = true, nil
+			}
+			i++
+		case ch == ']' || ch == ')' || ch == '}':
+			if rowDepth == 2 && depth == 2 {
+				flush()
+			}
+			depth--
+			i++
+		case ch == '\n':
+			if rowDepth < 2 {
+				flush()
+			}
+			i++
+		case ch == '-' || (ch >= '0' && ch <= '9'):
+			j := i + 1
+			for j < len(s) && s[j] >= '0' && s[j] <= '9' {
+				j++
+			}
+			n, err := strconv.Atoi(s[i:j])
 			if err != nil {
 				return nil, false
 			}
-			row = append(row, n)
+			if rowDepth == 2 && depth != 2 {
+				return nil, false // a value outside every row
+			}
+			open = true
+			cur = append(cur, n)
+			i = j
+		default:
+			i++
 		}
-		rows = append(rows, row)
-		s = s[end+1:]
+	}
+	if rowDepth < 2 {
+		flush()
 	}
 	return rows, true
 }
 
-func wantString(ref [][]int) string {
-	var sb strings.Builder
-	sb.WriteByte('[')
-	for y, r := range ref {
-		if y > 0 {
-			sb.WriteByte(' ')
-		}
-		sb.WriteByte('[')
-		for x, v := range r {
-			if x > 0 {
-				sb.WriteByte(' ')
-			}
-			sb.WriteString(strconv.Itoa(v))
-		}
-		sb.WriteByte(']')
-	}
-	sb.WriteByte(']')
-	return sb.String()
-}
-
 func coqCtor(cs Case) string {
 	switch cs.Ctor {
+	case "zero":
+		return "CZero"
 	case "new":
 		return "CNew"
 	case "filled":
 		return "(CFilled " + core.Z(cs.V) + ")"
 	}
 	return "(CJagged " + core.ZListList(cs.Jagged) + ")"
+}
+
+// ---- the array under test behind an int-valued view, so that the same oracle drives
+// Array2D[int] and Array2D[elem] (a struct element type; values are mapped by conv/back) ----
+
+type grid interface {
+	Get(x, y int) int
+	Set(x, y, v int)
+	Fill(x1, y1, x2, y2, v int)
+	Row(y int) window
+	RowSpan(x1, x2, y int) window
+	Clone() grid
+	String() string
+	Width() int
+	Height() int
+}
+
+// window is a slice returned by Row/RowSpan.
+type window interface {
+	Put(i, v int)    // win[i] = v
+	Snapshot() []int // copy of the current contents
+}
+
+type elem struct {
+	v   int
+	tag [3]byte
+	neg int32
+}
+
+func (e elem) String() string { return strconv.Itoa(e.v) }
+
+func toElem(v int) elem { return elem{v, [3]byte{byte(v), byte(v >> 8), 0xA5}, int32(-v)} }
+func fromElem(e elem) int {
+	if e == (elem{}) {
+		return 0 // the zero value make() fills with
+	}
+	if e != toElem(e.v) {
+		return sentinel + 1 // torn / mixed-up element
+	}
+	return e.v
+}
+
+type adapt[T any] struct {
+	a    arrays.Array2D[T]
+	conv func(int) T
+	back func(T) int
+}
+
+type awin[T any] struct {
+	s    []T
+	conv func(int) T
+	back func(T) int
+}
+
+func (w awin[T]) Put(i, v int) { w.s[i] = w.conv(v) }
+func (w awin[T]) Snapshot() []int {
+	o := make([]int, len(w.s))
+	for i, e := range w.s {
+		o[i] = w.back(e)
+	}
+	return o
+}
+
+func (g adapt[T]) Get(x, y int) int           { return g.back(g.a.Get(x, y)) }
+func (g adapt[T]) Set(x, y, v int)            { g.a.Set(x, y, g.conv(v)) }
+func (g adapt[T]) Fill(x1, y1, x2, y2, v int) { g.a.Fill(x1, y1, x2, y2, g.conv(v)) }
+func (g adapt[T]) Row(y int) window           { return awin[T]{g.a.Row(y), g.conv, g.back} }
+func (g adapt[T]) RowSpan(x1, x2, y int) window {
+	return awin[T]{g.a.RowSpan(x1, x2, y), g.conv, g.back}
+}
+func (g adapt[T]) Clone() grid    { return adapt[T]{g.a.Clone(), g.conv, g.back} }
+func (g adapt[T]) String() string { return g.a.String() }
+func (g adapt[T]) Width() int     { return g.a.Width() }
+func (g adapt[T]) Height() int    { return g.a.Height() }
+
+// construct builds the array of the case; jag is the harness's own copy of the jagged input
+// (converted to the element type), returned so that the caller can mutate it afterwards.
+func construct[T any](cs Case, conv func(int) T, back func(T) int) (grid, func() [][]int, func()) {
+	var a arrays.Array2D[T]
+	var jag [][]T
+	switch cs.Ctor {
+	case "zero":
+	case "new":
+		a = arrays.New2D[T](cs.W, cs.H)
+	case "filled":
+		a = arrays.New2DFilled(cs.W, cs.H, conv(cs.V))
+	default:
+		if cs.Jagged != nil {
+			jag = make([][]T, len(cs.Jagged))
+			for y, r := range cs.Jagged {
+				if r != nil {
+					jag[y] = make([]T, len(r))
+					for x, v := range r {
+						jag[y][x] = conv(v)
+					}
+				}
+			}
+		}
+		a = arrays.New2DFromJagged(cs.W, cs.H, jag)
+	}
+	readJag := func() [][]int {
+		if jag == nil {
+			return nil
+		}
+		o := make([][]int, len(jag))
+		for y, r := range jag {
+			if r != nil {
+				o[y] = make([]int, len(r))
+				for x, e := range r {
+					o[y][x] = back(e)
+				}
+			}
+		}
+		return o
+	}
+	scribble := func() {
+		for _, r := range jag {
+			for x := range r {
+				r[x] = conv(back(r[x]) + 31)
+			}
+		}
+	}
+	return adapt[T]{a, conv, back}, readJag, scribble
 }
 
 // modelCost estimates the work of the Coq model on a case (the model re-reads
@@ -628,8 +822,26 @@ func modelCost(cs Case) int {
 // exec runs a case with oracle and, when the model can evaluate it in reasonable time, the model comparison.
 func exec(c *core.Ctx, cs Case) { execE(c, cs, modelCost(cs) <= 20_000_000) }
 
+func abs(n int) int {
+	if n < 0 {
+		return -n
+	}
+	return n
+}
+
+func max0(n int) int {
+	if n < 0 {
+		return 0
+	}
+	return n
+}
+
 func execE(c *core.Ctx, cs Case, emit bool) {
 	c.Begin(cs)
+	if cs.T != "" {
+		emit = false // the model check is on Array2D[int]; other element types are oracle only
+		c.Count("elem_type_" + cs.T)
+	}
 	if emit {
 		c.Count("model_emitted")
 	} else {
@@ -647,30 +859,43 @@ func execE(c *core.Ctx, cs Case, emit bool) {
 	} else {
 		c.Count("shape_thin")
 	}
+	// width or height < 0 is outside the property: whatever Go does there is recorded for the
+	// model comparison (new2d's make panic, or an array on which every call panics), the
+	// property oracle does not judge it
+	outside := w < 0 || h < 0
+	if outside {
+		c.Count("negative_dims_outside_property")
+	}
 	fail := func(what, detail string) {
-		c.Fail(what, fmt.Sprintf("%dx%d %s: %s", w, h, cs.Ctor, detail))
+		if outside {
+			return
+		}
+		c.Fail(what, fmt.Sprintf("%dx%d %s%s: %s", w, h, cs.Ctor, cs.T, detail))
 	}
 
 	// reference grid: the property's cell model
-	ref := make([][]int, h)
+	ref := make([][]int, max0(h))
 	for y := range ref {
-		ref[y] = make([]int, w)
+		ref[y] = make([]int, max0(w))
 	}
-	var a arrays.Array2D[int]
-	jag := copy2(cs.Jagged)
+	var a grid
+	var readJag func() [][]int
+	var scribble func()
 	kind := core.Try(func() {
+		if cs.T == "elem" {
+			a, readJag, scribble = construct(cs, toElem, fromElem)
+		} else {
+			a, readJag, scribble = construct(cs, func(v int) int { return v }, func(v int) int { return v })
+		}
 		switch cs.Ctor {
-		case "new":
-			a = arrays.New2D[int](w, h)
+		case "zero", "new":
 		case "filled":
-			a = arrays.New2DFilled(w, h, cs.V)
 			for y := range ref {
 				for x := range ref[y] {
 					ref[y][x] = cs.V
 				}
 			}
 		default:
-			a = arrays.New2DFromJagged(w, h, jag)
 			for y := 0; y < h && y < len(cs.Jagged); y++ {
 				for x := 0; x < w && x < len(cs.Jagged[y]); x++ {
 					ref[y][x] = cs.Jagged[y][x]
@@ -693,13 +918,14 @@ func execE(c *core.Ctx, cs Case, emit bool) {
 		}
 	})
 	if kind != "" {
+		c.Count("constructor_panicked")
 		fail("constructor panicked", kind)
 		if emit {
 			c.Emit(fmt.Sprintf("Case %s %s %s (Panic %s) []", core.Z(w), core.Z(h), coqCtor(cs), kind))
 		}
 		return
 	}
-	if !eq2(jag, cs.Jagged) {
+	if jag := readJag(); !eq2(jag, cs.Jagged) {
 		fail("New2DFromJagged modified its input", fmt.Sprint(jag))
 	}
 	if a.Width() != w || a.Height() != h {
@@ -711,11 +937,7 @@ func execE(c *core.Ctx, cs Case, emit bool) {
 	}
 	if cs.Ctor == "jagged" {
 		// the array must not alias the jagged input
-		for _, r := range jag {
-			for x := range r {
-				r[x] += 31
-			}
-		}
+		scribble()
 		if d := diffRef(readGrid(c, a, w, h, "after mutating the jagged input"), ref, w); d != "" {
 			fail("array aliases the jagged input", d)
 		}
@@ -817,7 +1039,7 @@ func execE(c *core.Ctx, cs Case, emit bool) {
 			coqObs = fmt.Sprintf("BMut %s %s", optPanic(k), after())
 		case "row", "rowspan":
 			var x1, x2, y int
-			var win []int
+			var win window
 			var k string
 			if op.K == "row" {
 				y = op.A[0]
@@ -829,7 +1051,10 @@ func execE(c *core.Ctx, cs Case, emit bool) {
 				k = core.Try(func() { win = a.RowSpan(x1, x2, y) })
 				coqOp = fmt.Sprintf("ORowSpan %s %s %s", core.Z(x1), core.Z(x2), core.Z(y))
 			}
-			seen := append([]int{}, win...)
+			var seen []int
+			if k == "" {
+				seen = win.Snapshot()
+			}
 			valid := y >= 0 && y < h && (op.K == "row" || (x1 >= 0 && x1 < w && x2 >= 0 && x2 < w))
 			covered := valid && x1 <= x2+1 // Row on width 0 gives x2 = x1-1: the empty window; RowSpan with x1 > x2 is outside the property
 			if op.K == "rowspan" && x1 > x2 {
@@ -856,7 +1081,7 @@ func execE(c *core.Ctx, cs Case, emit bool) {
 				for _, wo := range op.Ws {
 					if wo.K == "write" {
 						c.Count("window_write")
-						if wk := core.Try(func() { win[wo.I] = wo.V }); wk != "" {
+						if wk := core.Try(func() { win.Put(wo.I, wo.V) }); wk != "" {
 							fail("write through the window panicked", fmt.Sprintf("%s win[%d]: %s", at, wo.I, wk))
 						}
 						if covered && x1+wo.I <= x2 {
@@ -875,16 +1100,20 @@ func execE(c *core.Ctx, cs Case, emit bool) {
 					}
 				}
 			}
-			again := append([]int{}, win...)
+			var again []int
+			if k == "" {
+				again = win.Snapshot()
+			}
 			if k == "" && covered && !core.Eq(again, ref[y][x1:x2+1]) {
 				fail(op.K+" window is not live (Set not visible through it)", fmt.Sprintf("%s = %v, want %v", at, again, ref[y][x1:x2+1]))
 			}
 			coqOp += " " + core.List(ws)
 			coqObs = fmt.Sprintf("BWin %s %s %s", core.Res(k, core.ZList(seen)), core.ZList(again), after())
 		case "clone":
-			var cl arrays.Array2D[int]
+			var cl grid
 			if k := core.Try(func() { cl = a.Clone() }); k != "" {
 				fail("Clone panicked", k)
+				cl = a
 			}
 			cg := readGrid(c, cl, cl.Width(), cl.Height(), "clone")
 			if cl.Width() != w || cl.Height() != h {
@@ -925,12 +1154,12 @@ func execE(c *core.Ctx, cs Case, emit bool) {
 			if k := core.Try(func() { s = a.String() }); k != "" {
 				fail("String panicked", k)
 			}
-			if want := wantString(ref); s != want {
-				fail("String disagrees with the cell model", fmt.Sprintf("%q, want %q", s, want))
-			}
+			// the property fixes no format: only the cell values, as h rows of w values, are compared
 			rows, ok := parseRows(s)
 			if !ok {
-				fail("String output is malformed", s)
+				c.Unobservable("String output not understood by the harness's liberal parser (cannot compare its cells): " + s)
+			} else if !eq2(rows, ref) && !(len(ref) == 0 && len(rows) == 0) {
+				fail("String disagrees with the cell model", fmt.Sprintf("%q parsed as %v, want rows %v", s, rows, ref))
 			}
 			if d := after(); d != "[]" {
 				fail("String altered the array", at)
